@@ -362,7 +362,7 @@ def r10_pass_keeps_node(run, F, modules=("analyzer::constness", "analyzer::funct
         def rep(key, ok, where, detail, sample, mod=mod, ty=ty):
             run.ob("R10-PASS-KEEPS-NODE", "%s|%s|%s" % (mod, ty, key), ok, where,
                    detail + " (a pass that runs over constant initialisers only, or over function bodies only, would otherwise make the two disagree)", sample)
-        n += visit.keeps_variant(F, b, rep, plain_fields=("op",))
+        n += visit.keeps_variant(F, b, rep, plain_fields=("op",), crate_bodies=C.bodies)
     run.ob("R10-PASS-KEEPS-NODE", "scan " + ",".join(m.split("::")[-1] for m in modules), n >= floor, "src/alpha/" + modules[0].replace("::", "/") + ".rs",
            "%d match arms of rewriting passes examined (floor %d)" % (n, floor))
 
